@@ -54,20 +54,20 @@ type Clause struct {
 }
 
 // expression constructors
-func Lit(v *Spec) *E              { return &E{T: "lit", V: v} }
-func LInt(i int64) *E             { return Lit(SInt(i)) }
-func LStr(s string) *E            { return Lit(SStr(s)) }
-func LBool(b bool) *E             { return Lit(SBool(b)) }
-func LNil() *E                    { return Lit(SNil()) }
-func Var(n string) *E             { return &E{T: "var", N: n} }
-func Prop(x *E, n string) *E      { return &E{T: "prop", N: n, A: []*E{x}} }
-func PropBr(x *E, n string) *E    { return &E{T: "prop", N: n, Br: true, A: []*E{x}} }
-func Idx(x, i *E) *E              { return &E{T: "idx", A: []*E{x, i}} }
-func RangeE(a, b *E) *E           { return &E{T: "range", A: []*E{a, b}} }
+func Lit(v *Spec) *E                 { return &E{T: "lit", V: v} }
+func LInt(i int64) *E                { return Lit(SInt(i)) }
+func LStr(s string) *E               { return Lit(SStr(s)) }
+func LBool(b bool) *E                { return Lit(SBool(b)) }
+func LNil() *E                       { return Lit(SNil()) }
+func Var(n string) *E                { return &E{T: "var", N: n} }
+func Prop(x *E, n string) *E         { return &E{T: "prop", N: n, A: []*E{x}} }
+func PropBr(x *E, n string) *E       { return &E{T: "prop", N: n, Br: true, A: []*E{x}} }
+func Idx(x, i *E) *E                 { return &E{T: "idx", A: []*E{x, i}} }
+func RangeE(a, b *E) *E              { return &E{T: "range", A: []*E{a, b}} }
 func Flt(x *E, n string, a ...*E) *E { return &E{T: "filter", N: n, A: append([]*E{x}, a...)} }
-func Cmp(op string, a, b *E) *E   { return &E{T: "cmp", N: op, A: []*E{a, b}} }
-func BoolE(op string, a, b *E) *E { return &E{T: "bool", N: op, A: []*E{a, b}} }
-func Paren(x *E) *E               { return &E{T: "paren", A: []*E{x}} }
+func Cmp(op string, a, b *E) *E      { return &E{T: "cmp", N: op, A: []*E{a, b}} }
+func BoolE(op string, a, b *E) *E    { return &E{T: "bool", N: op, A: []*E{a, b}} }
+func Paren(x *E) *E                  { return &E{T: "paren", A: []*E{x}} }
 
 // node constructors
 func Text(s string) *N             { return &N{T: "text", S: s} }
